@@ -1748,7 +1748,12 @@ class UserSpaceImpl(*_user_space_impl_base):
                 if name in self.own_refs:
                     self.model.refmgr.change_ref(self, name, value, refmode)
                 elif self.refs[name].parent is self.model:
+                    # The new ref shadows the global ref of the same name.
+                    # Clear values that read the global ref as an attribute
+                    # of this space or its sub spaces.
+                    shadowed = self.refs[name]
                     self.model.refmgr.new_ref(self, name, value, refmode)
+                    self.model.clear_attr_referrers(shadowed)
                 else:
                     raise RuntimeError("must not happen")
 
